@@ -11,21 +11,21 @@ def NoDot (s : Str) : Prop := ∀ c ∈ s, c ≠ 46
 `get`/`access` take everything after the type as the resource name … -/
 theorem split_plain (t rname : Str) (ht : NoDot t) (h1 : t ≠ b!"call") (h2 : t ≠ b!"auth") :
     splitSubject (t ++ 46 :: rname) = some (t, rname, []) := by
-  sorry
+  exact splitSubject_plain t rname ht h1 h2
 
 /-- … `call`/`auth` take the last token as the method and everything between as the name -/
 theorem split_method (t rname m : Str) (ht : t = b!"call" ∨ t = b!"auth") (hm : NoDot m) :
     splitSubject (t ++ 46 :: rname ++ 46 :: m) = some (t, rname, m) := by
-  sorry
+  exact splitSubject_method t rname m ht hm
 
 /-- **handler selection** (the decision table, stated outright) -/
 theorem pick_access (cfg : HCfg) (r : ReqIn) (h : r.rtype = .access) :
     pick cfg r = if cfg.hasAccess then .invoke "access" else .noReplyAtAll := by
-  sorry
+  simp [pick, h]
 
 theorem pick_get (cfg : HCfg) (r : ReqIn) (h : r.rtype = .get) :
     pick cfg r = if cfg.hasGet then .invoke "get" else .reply (respError codeNotFound (b!"Not found") none) := by
-  sorry
+  simp [pick, h]
 
 theorem pick_call (cfg : HCfg) (r : ReqIn) (h : r.rtype = .call) :
     pick cfg r =
@@ -33,57 +33,85 @@ theorem pick_call (cfg : HCfg) (r : ReqIn) (h : r.rtype = .call) :
       else if r.method ∈ cfg.call then .invoke "call"                    -- the named method
       else if [42] ∈ cfg.call then .invoke "call*"                       -- else the * method
       else .reply (respError codeMethodNotFound (b!"Method not found") none) := by
-  sorry
+  simp [pick, h]
 
 theorem pick_auth (cfg : HCfg) (r : ReqIn) (h : r.rtype = .auth) :
     pick cfg r =
       if r.method ∈ cfg.auth then .invoke "auth"
       else if [42] ∈ cfg.auth then .invoke "auth*"
       else .reply (respError codeMethodNotFound (b!"Method not found") none) := by
-  sorry
+  simp [pick, h]
 
 /-- **nothing can be invoked**: no resource → notFound; payload not JSON → internalError -/
 theorem no_resource (cfg : HCfg) (r : ReqIn) (script : List Action) (h : r.found = false) :
     process cfg r script = [.pub replySubj (respError codeNotFound (b!"Not found") none)] := by
-  sorry
+  simp [process_eq, h]
 
 theorem bad_payload (cfg : HCfg) (r : ReqIn) (script : List Action) (h : r.found = true) (hb : r.payload = .bad) :
     process cfg r script = [.pub replySubj (respError codeInternal goErr none)] := by
-  sorry
+  simp [process_eq, h, hb]
 
 /-- **the handler sees the request data exactly as sent**: the first effect of an invoked handler
 is the record of what it sees, which is the request's own fields -/
 theorem fields_verbatim (cfg : HCfg) (r : ReqIn) (script : List Action) (kind : String)
     (hf : r.found = true) (hp : r.payload = .ok) (hk : pick cfg r = .invoke kind) :
     (process cfg r script).head? = some (.seen (encSeen kind r)) := by
-  sorry
+  have hb : r.payload ≠ .bad := by simp [hp]
+  rw [process_invoke script hf hb (by rw [normReq_ok r hp]; exact hk), normReq_ok r hp]
+  obtain ⟨d, hd⟩ := finish_extends (runScript cfg r (seen0 kind r) script)
+  obtain ⟨d', hd'⟩ := runScript_extends cfg r (seen0 kind r) script
+  rw [hd, hd']; rfl
 
 /-- **outcome map**: an error of the library's type passed to `Error` (first responder of the script,
 nothing but non-panicking steps before) is returned verbatim -/
 theorem error_verbatim (cfg : HCfg) (r : ReqIn) (kind : String) (c m : Str) (rest : List Action)
     (hf : r.found = true) (hp : r.payload = .ok) (hk : pick cfg r = .invoke kind) (hh : r.isHTTP = false) :
     responses (process cfg r (.error (.res c m) :: rest)) = [respError c m none] := by
-  sorry
+  have _ := hh   -- not needed: the handler has set no meta before its first action
+  have hb : r.payload ≠ .bad := by simp [hp]
+  rw [process_invoke _ hf hb (by rw [normReq_ok r hp]; exact hk), normReq_ok r hp]
+  have ha : act cfg r (seen0 kind r) (.error (.res c m)) =
+      .cont { replied := true, effs := [.seen (encSeen kind r), .pub replySubj (respError c m none)] } := by
+    simp [act, errVParts, reply, seen0, emit, metaOf, Meta.render]
+  simp only [runScript, ha]
+  rw [responses_finish_replied _ _ _ _ rfl]
+  exact responses_seen_reply _ _ (by simp)
 
 /-- … as is one the handler panics with -/
 theorem panic_error_verbatim (cfg : HCfg) (r : ReqIn) (kind : String) (c m : Str) (rest : List Action)
     (hf : r.found = true) (hp : r.payload = .ok) (hk : pick cfg r = .invoke kind) :
     responses (process cfg r (.panic (.err (.res c m)) :: rest)) = [respError c m none] := by
-  sorry
+  have hb : r.payload ≠ .bad := by simp [hp]
+  rw [process_invoke _ hf hb (by rw [normReq_ok r hp]; exact hk), normReq_ok r hp]
+  simp only [runScript, act, finish]
+  simp only [recoverArm, seen0, errVParts, errorReply, emit, metaOf, Meta.render]
+  exact responses_seen_reply _ _ (by simp)
 
 /-- any other panic before a reply becomes `system.internalError` -/
 theorem other_panic_internal (cfg : HCfg) (r : ReqIn) (kind : String) (p : PanicV) (rest : List Action)
     (hf : r.found = true) (hp : r.payload = .ok) (hk : pick cfg r = .invoke kind)
     (hne : ∀ c m, p ≠ .err (.res c m)) :
     ∃ msg, responses (process cfg r (.panic p :: rest)) = [respError codeInternal msg none] := by
-  sorry
+  have hb : r.payload ≠ .bad := by simp [hp]
+  rw [process_invoke _ hf hb (by rw [normReq_ok r hp]; exact hk), normReq_ok r hp]
+  simp only [runScript, act, finish]
+  cases p with
+  | err e =>
+    cases e with
+    | res c m => exact absurd rfl (hne c m)
+    | go m => exact ⟨_, responses_seen_reply _ _ (by simp)⟩
+  | lib => exact ⟨_, responses_seen_reply _ _ (by simp)⟩
+  | str m => exact ⟨_, responses_seen_reply _ _ (by simp)⟩
+  | other m => exact ⟨_, responses_seen_reply _ _ (by simp)⟩
 
 /-- a handler that returns without replying gets `system.internalError` "missing response" -/
 theorem missing_reply_internal (cfg : HCfg) (r : ReqIn) (kind : String) (script : List Action)
     (hf : r.found = true) (hp : r.payload ≠ .bad) (hk : pick cfg (if r.payload = .empty then { r with cid := [], isHTTP := false, rawParams := none, token := none, query := [] } else r) = .invoke kind)
     (hs : script = []) :
     responses (process cfg r script) = [missingResponse] := by
-  sorry
+  subst hs
+  rw [process_invoke _ hf hp hk]
+  exact responses_seen_reply _ _ (by simp)
 
 /-! ## non-vacuity: a resource name with dots and a method-like token -/
 -- "call" ++ "." ++ "a.call.b" ++ "." ++ "m"
